@@ -13,6 +13,7 @@ constructors) or *dead*: the whole-crate abstract interpretation under the valid
 reaches no panic outcome there; sites inside per-channel scanner elements are discharged against
 the reachable typestates of the extracted automata (no panic row).
 """
+from ..mirpp import ty_str
 from .. import audit, scan, automata as A
 from ..report import Check, site_subject, fn_subject
 from ..spec import midi
@@ -109,9 +110,31 @@ def allocation(chk, Fs):
             chk.floor('call_terminators_K1', FLOORS['call_terminators_K1'], len(calls))
         by_crate = {}
         offenders = []
+        # calls through function pointers: the possible targets are the functions whose address is taken somewhere in the
+        # crate (constant operands of function type that are not the callee of a direct call); no public API takes or
+        # returns a function pointer or a closure, so none can come from outside
+        reified, unknown_fn_value = set(), False
+        for k0, f0, body, pi in scan.bodies(F):
+            for blk in body['blocks']:
+                ops = []
+                for s0 in blk['stmts']:
+                    if s0['k'] == 'assign':
+                        rv = s0['rv']
+                        ops += [rv.get('x'), rv.get('op')] + list(rv.get('ops', []) or [])
+                if blk['term']['k'] == 'call':
+                    ops += list(blk['term']['args'])
+                for o in ops:
+                    if isinstance(o, dict) and o.get('k') == 'const' and o.get('fn'):
+                        reified.add((o['fn'].get('resolved_krate') or o['fn'].get('krate'), o['fn'].get('resolved') or o['fn'].get('path')))
+        fnptr_in_api = any(('fn(' in ty_str(t0) or 'dyn ' in ty_str(t0)) for k0, f0 in F.fns.items() if f0.get('exported') and f0['kind'] in ('Fn', 'AssocFn')
+                           for t0 in list(f0.get('inputs', [])) + [f0.get('output') or {'k': 'tuple', 'tys': []}])
         for site, c, t in calls:
             if c is None:
-                offenders.append((site, 'indirect call'))
+                bad = sorted(p for kr, p in reified if kr not in ('helgoboss_midi', 'core'))
+                if bad or fnptr_in_api:
+                    offenders.append((site, 'indirect call (possible targets outside the crate / core: %s)' % (bad[:2] or 'function pointers cross the public API')))
+                else:
+                    by_crate['helgoboss_midi'] = by_crate.get('helgoboss_midi', 0) + 1
                 continue
             if t['t'] is None and (c['path'].startswith('std::panicking::') or c['path'].startswith('std::rt::') or c['path'].startswith('core::panicking::')):
                 continue            # a panic entry point: panic paths are excluded from the allocation clause and enumerated as panic sites
